@@ -129,8 +129,8 @@ def decOf (tbl : List (Nat × List Char × Option (List Char))) : Dec := fun k v
 
 def ruleStr (r : List Fn × Fn) : String := fnsStr r.1 ++ ">" ++ fnStr r.2
 
-def leafStr (zeros : List (List Char)) : Leaf → Option String
-  | .scalar c => some ("s:" ++ esc c)
+def leafStr (_zeros : List (List Char)) : Leaf → Option String
+  | .scalar _ c => some ("s:" ++ esc c)
   | .strs vs => if vs.isEmpty then none else some ("l:" ++ toString vs.length ++ ":" ++ ",".intercalate (vs.map esc))
   | .istr s => some ("i:" ++ esc s)
   | .ifns fs => some ("f:" ++ fnsStr fs)
@@ -161,7 +161,7 @@ the harness omits zero values, the model omits a scalar whose canonical text is 
 def storeStr (zeros : List (List Char)) (st : Store) : String :=
   let entries := st.filterMap fun e =>
     match e.2 with
-    | .scalar c => if zeros.contains c ∧ ¬ (String.ofList e.1).endsWith "#name" then none else some (String.ofList e.1 ++ "=s:" ++ esc c)
+    | .scalar k c => if zeros[k]? = some c ∧ ¬ (String.ofList e.1).endsWith "#name" then none else some (String.ofList e.1 ++ "=s:" ++ esc c)
     | l => (leafStr zeros l).map (String.ofList e.1 ++ "=" ++ ·)
   ";".intercalate (sortStrings entries)
 
@@ -257,7 +257,7 @@ def handle (st : St) (line : String) : St × String :=
         let rules := rulesOfItems (ss.flatMap (·.items))
         let emit := if which = "r" then routingEmit else if which = "q" then dnsRequestEmit else dnsResponseEmit
         match compileSize emit maxLen rules with
-        | .ok n => (st, "ok sets=" ++ toString n)
+        | .ok n => (st, if which = "r" then "ok sets=" ++ toString n else "ok")
         | .error .oversize => (st, "err:oversize")
         | .error .unknownFunction => (st, "err:unknownFunction")
         | .error .noParams => (st, "err:noParams")
